@@ -709,6 +709,34 @@ pub fn families(args: &[String]) {
                     }
                 }
             }
+            "family_longtok" => {
+                for ch in f["chars"].as_array().unwrap() {
+                    for len in f["lens"].as_array().unwrap() {
+                        let tok = ch.as_str().unwrap().repeat(len.as_u64().unwrap() as usize);
+                        // cron: the token as each of the five fields, as a step, inside a list and a range
+                        for k in 0..5 {
+                            for shape in ["{}", "*/{}", "1,{}", "1-{}", "{}-2"] {
+                                let mut fields = vec!["*".to_string(); 5];
+                                fields[k] = shape.replace("{}", &tok);
+                                run(json!({"op": "cron_any", "s": chars(&fields.join(" "))}), &mut w, &mut total, &mut classes, &mut samples);
+                            }
+                        }
+                        // pattern-driven parsing: the token where every symbol expects its value, at several widths
+                        for ty in ["date", "time", "dt"] {
+                            for sym in ["y", "M", "d", "D", "e", "G", "q", "w", "H", "h", "a", "b", "n", "X", "x"] {
+                                for wd in [1usize, 3, 4, 5, 8] {
+                                    let p = sym.repeat(wd);
+                                    run(json!({"op": "parse_any", "ty": ty, "s": chars(&tok), "p": chars(&p)}), &mut w, &mut total, &mut classes, &mut samples);
+                                    run(json!({"op": "parse_any", "ty": ty, "s": chars(&format!("1{}", tok)), "p": chars(&p)}), &mut w, &mut total, &mut classes, &mut samples);
+                                }
+                            }
+                            run(json!({"op": "fromstr_any", "ty": ty, "s": chars(&tok)}), &mut w, &mut total, &mut classes, &mut samples);
+                            run(json!({"op": "serde_any", "ty": ty, "s": chars(&tok)}), &mut w, &mut total, &mut classes, &mut samples);
+                        }
+                        run(json!({"op": "rfc_any", "ty": "dt", "s": chars(&format!("2022-05-02T15:30:20{}", tok))}), &mut w, &mut total, &mut classes, &mut samples);
+                    }
+                }
+            }
             "family_nines" => {
                 let ty = gs(f, "ty");
                 let p = unchars(&f["p"]);
